@@ -1319,3 +1319,47 @@ pub mod shape {
         sl::exceeds_max_width_error(s(a))
     }
 }
+
+/// Named crash points and fault injection between the file-system operations of the two
+/// Files emitters. Both are no-ops unless an environment variable selects them.
+pub mod crash {
+    use std::io;
+    use std::sync::atomic::{AtomicUsize, Ordering};
+
+    static CRASH_HITS: AtomicUsize = AtomicUsize::new(0);
+    static FAIL_HITS: AtomicUsize = AtomicUsize::new(0);
+
+    /// Does the selector `var` = `name` or `name@k` pick this (the k-th, default first)
+    /// arrival at the point called `name`?
+    fn selected(var: &str, name: &str, hits: &AtomicUsize) -> bool {
+        let sel = match std::env::var(var) {
+            Ok(s) => s,
+            Err(_) => return false,
+        };
+        let (n, k) = match sel.rsplit_once('@') {
+            Some((n, k)) => (n, k.parse::<usize>().unwrap_or(1)),
+            None => (&sel[..], 1),
+        };
+        n == name && hits.fetch_add(1, Ordering::SeqCst) + 1 == k
+    }
+
+    /// Aborts the process when `RUSTFMT_VERIF_CRASH_AT` selects this point.
+    pub fn crash_point(name: &str) {
+        if selected("RUSTFMT_VERIF_CRASH_AT", name, &CRASH_HITS) {
+            std::process::abort();
+        }
+    }
+
+    /// Placed directly before a file-system operation: returns an error instead of letting
+    /// the operation run when `RUSTFMT_VERIF_FAIL_AT` selects this point.
+    pub fn fail_point(name: &str) -> io::Result<()> {
+        if selected("RUSTFMT_VERIF_FAIL_AT", name, &FAIL_HITS) {
+            return Err(io::Error::new(
+                io::ErrorKind::Other,
+                format!("injected failure at {name}"),
+            ));
+        }
+        Ok(())
+    }
+}
+pub use self::crash::{crash_point, fail_point};
